@@ -142,6 +142,14 @@ PROPS = {
         'design_ref': 'DESIGN.md 5 C08',
         'explanation': 'script contracts',
     },
+    'C09': {
+        'modules': ['contracts.c09'],
+        'level': 'other',
+        'trusted_base': COMMON_TB,
+        'assumptions': [],
+        'level_text': 'wip', 'level_note': 'wip', 'design_ref': 'DESIGN.md 5 C09',
+        'explanation': 'value semantics contracts',
+    },
     'C10': {
         'modules': ['contracts.c10'],
         'level': 'other',
@@ -161,11 +169,38 @@ PROPS = {
     },
     'C11': {
         'modules': ['contracts.c11'],
-        'level': 'other',
+        'level': 'proof',
         'trusted_base': COMMON_TB,
-        'assumptions': [],
-        'level_text': 'wip', 'level_note': 'wip', 'design_ref': 'DESIGN.md 5 C11',
-        'explanation': 'bech32 contracts',
+        'assumptions': [
+            'bitwise xor on integers with overlapping bits is the uninterpreted function bxor - the same symbol in the '
+            'code and in specs/bech32.py (exact when the operands provably occupy disjoint bits, evaluated when concrete); '
+            'the algebraic (BCH) properties of the checksum are therefore NOT derived, only that the code computes the '
+            'BIP173 polymod formula',
+            'str.lower/str.upper are uninterpreted (length-preserving, lower idempotent); str.rfind is z3 last_indexof; '
+            'CHARSET.find(c) for one character is a decision table over the character code',
+            'convertbits is used through two ASSUMED contracts (5->8 strict, 8->5 padded) that are only checked by '
+            'bounded units against a bit-string reference',
+            'the guarantee "up to four substitutions are always detected" is a property of the BIP173 generator '
+            'polynomial (mathematics, BIP173), not of this code: it is sampled by a bounded unit, not proved',
+        ],
+        'level_text': 'PROVED for all inputs (all prefixes, all lengths): bech32_polymod = the BIP173 polymod recursion; '
+                      'bech32_hrp_expand; verify/create_checksum; bech32_encode = prefix + "1" + characters of data and '
+                      'checksum; bech32_decode accepts EXACTLY the strings that are printable, single-case, at most 90 '
+                      'long, with the last "1" after a non-empty prefix and at least 6 data characters from the alphabet '
+                      'and polymod 1, returns lower-cased prefix and data values, never raises; segwit decode accepts '
+                      'exactly: valid Bech32, expected prefix, 5-bit groups regrouping strictly to 2..40 bytes, version '
+                      '0..16, version-0 length 20 or 32, and returns version and program; encode returns only strings '
+                      'its decoder accepts; CBech32Data(s) raises Bech32Error exactly for non-addresses of the selected '
+                      "chain's prefix (4 chains) and str() only yields valid addresses. "
+                      'BOUNDED (not proved): convertbits against a bit-string regrouping reference; polymod against GF(32) '
+                      'polynomial arithmetic; decode/encode against an independent BIP173 codec on valid addresses, every '
+                      'single substitution of sampled addresses (enumerated exhaustively, continuing across runs), random '
+                      '2-4 substitutions, mixed case, truncation, extension; refusal of every sampled 1-4 character '
+                      'corruption and mixed-case rendering.',
+        'level_note': 'trusted: pyvc, z3/cvc5, bxor/lower/upper uninterpreted, assumed convertbits contracts (bounded), '
+                      'specs/bech32.py; error-detection guarantee of the BCH code is external mathematics',
+        'design_ref': 'DESIGN.md 5 C11',
+        'explanation': 'contracts on every function of segwit_addr.py and on CBech32Data; bounded codec units',
     },
     'C12': {
         'modules': ['contracts.c12'],
